@@ -15,7 +15,13 @@ def run(chk):
                        'outside': 'n >= 4; benchmark-size models ("models of any size" is not claimed)'})
     chk.assumptions += ['E-MIR: biodivine set operations follow the bit-vector model of DESIGN.md 3.4 (var_pre = flip & can-update, pre = union over variables)',
                         'the progress callback has no effect on the computed sets']
-    for n, c in configs:
+    from ..run import run_parallel
+    run_parallel(chk, 'hv.props.c11', 'kernel_laws', [(n, c, thorough) for n, c in configs])
+    e_uni(chk, thorough)
+
+def kernel_laws(chk, cfg):
+    n, c, thorough = cfg
+    if True:
         lab = KL.Lab(chk, n, c)
         M = lab.M
         a, b, a2 = lab.set('a'), lab.set('b'), lab.set('a2')
@@ -93,7 +99,6 @@ def run(chk):
         # --- deadlock states behave as self-loops
         law('EX a & steady == a & steady', k1('EX', a) & st, a & st, ('and', ('EX', A), ('bind', 'x', None, ('AX', ('var', 'x')))), ('and', A, ('bind', 'x', None, ('AX', ('var', 'x')))), twin=((k1('EX', a) & st) == st))
         law('AX a & steady == a & steady', k1('AX', a) & st, a & st, ('and', ('AX', A), ('bind', 'x', None, ('AX', ('var', 'x')))), ('and', A, ('bind', 'x', None, ('AX', ('var', 'x')))))
-    e_uni(chk, thorough)
 
 def e_uni(chk, thorough):
     """the same laws through the real libraries: law formulas must evaluate to the whole unit set; EF/AG/EU against
